@@ -33,7 +33,7 @@ ASSUMPTIONS = ['single bytecodes are atomic (CPython GIL)',
 # a2: > 127 bytes raw but < 128 compressed (the two lengths need different
 # VarInt widths); b1: above the threshold, both lengths one byte wide
 TEXT = {'a1': 'a1', 'a2': 'a2' + 'x' * 200, 'b': 'b', 'b1': 'b1' + 'y' * 66,
-        'b2': 'b2', 'c': 'c' * 3}
+        'b2': 'b2', 'c': 'c' * 3, 'L': 'L' + 'w' * 150}
 
 PROGRAMS = {
     # name: (threads {tid: [ops]}, final driver ops after join)
@@ -44,6 +44,10 @@ PROGRAMS = {
     'P3': ({'A': [('q', 'a1'), ('q', 'a2')], 'D': [('disc', True)]}, []),
     'P4': ({'A': [('q', 'a1')], 'B': [('f', 'b')], 'C': [('q', 'c')]},
            [('disc', False)]),
+    # a packet listener running on the networking thread issues a forced
+    # write (the server's keep-alive 55 triggers it) while a user thread
+    # forces one too
+    'P5': ({'A': [('srv', 55)], 'B': [('f', 'b')]}, [('disc', False)]),
 }
 MODES = ('plain', 'compress', 'encrypt')
 VERSION = 757
@@ -64,7 +68,15 @@ def body(W, prog, mode):
                         handle_exception=lambda e, i: errs.append(
                             type(e).__name__),
                         handle_exit=lambda: S.event('exit'))
-    from minecraft.networking.packets import serverbound
+    from minecraft.networking.packets import serverbound, clientbound
+
+    def forced_from_listener(p):
+        if p.keep_alive_id == 55:
+            conn.write_packet(serverbound.play.ChatPacket(message=TEXT['L']),
+                              force=True)
+    if prog == 'P5':
+        conn.register_packet_listener(forced_from_listener,
+                                      clientbound.play.KeepAlivePacket)
     conn.connect()
     W.settle()
     srv = W.servers[-1]
@@ -99,6 +111,8 @@ def body(W, prog, mode):
                     message=TEXT[arg]), force=True)
             elif kind == 'disc':
                 conn.disconnect(immediate=arg)
+            elif kind == 'srv':
+                srv.play(('keepalive', arg))
         except Exception as e:
             S.event('raise', tag, type(e).__name__)
             results[tag] = type(e).__name__
@@ -185,7 +199,8 @@ def judge(W, S, conn, srv, prog, mode, results, errs, base):
                      'after the connection ended: %s'
                      % (len(srv.pt), bytes(srv.pt[:20]).hex())))
     chats = [r[1] for r in srv.play_rx if r[0] == 'chat']
-    others = [r for r in srv.play_rx if r[0] != 'chat']
+    others = [r for r in srv.play_rx if r[0] != 'chat'
+              and not (prog == 'P5' and r == ('keepalive', 55))]
     if others:
         viol.append(('unexpected-frame', 'server received %r' % others[:3]))
     # 2. exactly once for packets handed in before the disconnect began;
@@ -194,6 +209,8 @@ def judge(W, S, conn, srv, prog, mode, results, errs, base):
     for tid, op in all_ops:
         if op[0] in ('q', 'f'):
             handed[TEXT[op[1]]] = '%s:%s:%s' % (tid, op[0], op[1])
+    if prog == 'P5':
+        handed[TEXT['L']] = 'listener:f:L'
     for msg in set(chats):
         if msg not in handed:
             viol.append(('alien-frame', 'chat %r was never written' % msg))
@@ -330,6 +347,7 @@ def factory(params):
 # with the shared visited table: P1/P3 bound 2 ~ 6-10 s, P4 bound 2 ~ 60 s,
 # P2 bound 1 ~ 15 s, P2 bound 2 ~ 6 min.
 QUICK = {('P1', 'plain'): 2, ('P1', 'compress'): 2, ('P1', 'encrypt'): 2,
+         ('P5', 'plain'): 2, ('P5', 'encrypt'): 1,
          ('P3', 'plain'): 2, ('P3', 'compress'): 1, ('P3', 'encrypt'): 1,
          ('P2', 'plain'): 1, ('P4', 'plain'): 1}
 THOROUGH = {(p, m): 2 for p in PROGRAMS for m in MODES}
